@@ -873,6 +873,9 @@ func elemType(t types.Type) types.Type {
 	if s, ok := t.Underlying().(*types.Slice); ok {
 		return s.Elem()
 	}
+	if a, ok := t.Underlying().(*types.Array); ok {
+		return a.Elem()
+	}
 	return nil
 }
 
@@ -1188,7 +1191,7 @@ func (fv *FV) specCall(env *Env, c *SCall) Term {
 	case "locked":
 		need(1)
 		a := args()
-		fv.compSort["L:held"] = arr(sInt, sBool)
+		fv.heldDecl()
 		return Term{S: sel(fv.heapGet(env.st, "L:held"), a[0].S), Sort: sBool}
 	case "tlen":
 		// tlen(trace): number of recorded calls of the traced callback
